@@ -65,6 +65,14 @@ def run_main(argv, files=(), stdin=None, keep_files=False, crash_at=None, undeco
     except vfs.Crash:
         o.code = "crash"
         V.files = list(V.snapshot)
+    with NoTracing():
+        for e in pres.err:
+            t = e
+            if type(t) is str and ("wall-clock alarm" in t or "_Alarm" in t or "Z3Exception" in t or "CrossHairInternal" in t):
+                # an exception of the analysis engine was caught and reported by the application
+                from crosshair.util import PathTimeout
+
+                raise PathTimeout("engine exception swallowed by the application: " + t[:120])
     o.out = list(pres.out)
     o.err = list(pres.err)
     o.fails = list(pres.fails)
